@@ -17,6 +17,7 @@ import Circomspect.Model.Taint
 import Circomspect.Lemmas.PathValues
 import Circomspect.Lemmas.PathDegrees
 import Circomspect.Model.SsaBuild
+import Circomspect.Model.SsaWalk
 import Driver.Sexp
 import Driver.DesugarCmd
 
@@ -564,6 +565,49 @@ def ssabuildCmd (rest : String) : String :=
                s!"mismatch block {i}: model [{showSsaBlock (m.block i)}] implementation [{showSsaBlock (r.block i)}]")
   | _ => "bad-op"
 
+/-- `ssawalk (pair <pre-SSA cfg> <ssa cfg | ->)`: the operational model of the renaming (`SsaWalk.run`: pre-order walk,
+    global counters, scoped map) on the real CFG before SSA conversion: the SSA form it produces must be the dump,
+    version numbers included (phi statements and their arguments as sets) -/
+def ssawalkCmd (rest : String) : String :=
+  match Sexp.parse rest with
+  | some (.list [.atom "pair", pc, sc]) =>
+    let (c, _) := pcfgOf pc
+    let n := c.blocks.length
+    let g : Graph.Graph := { n := c.blocks.length, pred := fun i => (c.block i).preds }
+    match Dominators.computeDominators g with
+    | none => "fail dominators"
+    | some D =>
+      let idoms := Dominators.idoms g D
+      let idom : Nat → Nat := fun i => match idoms i with | .some j => j | _ => 0
+      let df : Nat → List Nat := fun x => (List.range n).filter (fun j => Dominators.inFrontier g idoms x j)
+      let allW := ((List.range n).flatMap (SsaBuild.written c)).eraseDups
+      match SsaBuild.insertPhis df (SsaBuild.written c) (n + 2 * (n * allW.length)) (List.range n) (fun _ => []) with
+      | none => "fail worklist-fuel"
+      | some Pf =>
+        let hyps := (if c.params.eraseDups.length == c.params.length then [] else ["dup-params"]) ++
+          (if (List.range n).all (fun i => (c.block i).succs.all (fun s => (c.block s).preds.contains i) &&
+              (c.block i).preds.all (fun p => (c.block p).succs.contains i)) then [] else ["edges"])
+        match SsaWalk.run c Pf idom, sc with
+        | .fuel, _ => "fail walk-fuel"
+        | .undef, .atom _ => "ok both-fail"
+        | .undef, _ => "mismatch model fails (read of an unversioned local) but the implementation produced an SSA form"
+        | .ok _, .atom _ => "mismatch model builds an SSA form but the implementation failed"
+        | .ok st, _ =>
+          let r := ssaCfgOf sc
+          match SsaWalk.cfgOf c Pf st with
+          | none => "mismatch the walk did not visit every block"
+          | some m =>
+            let bad := (List.range n).filter (fun i => showSsaBlock (m.block i) != showSsaBlock (r.block i))
+            let pairs := st.log.map (fun e => (e.var, e.ver))
+            let freshOk := pairs.eraseDups.length == pairs.length
+            if !freshOk then "mismatch a version was handed out twice" else
+            if bad.isEmpty && m.blocks.length == r.blocks.length then
+              s!"ok blocks={n} versions={st.log.length}" ++ (if hyps.isEmpty then "" else " hyps:" ++ ",".intercalate hyps)
+            else
+              let i := bad.headD 0
+              s!"mismatch block {i}: model [{showSsaBlock (m.block i)}] implementation [{showSsaBlock (r.block i)}]"
+  | _ => "bad-op"
+
 /-- `phicomplete <ssa cfg>`: the phi statements that lack an argument for some incoming edge (the
     variable has no version at the end of that predecessor): hypothesis `PhiComplete` of C06 -/
 def phicompleteCmd (rest : String) : String :=
@@ -832,6 +876,7 @@ def pathhypsCmd (rest : String) : String :=
 def handle (line : String) : String :=
   if line.startsWith "pathhyps " then pathhypsCmd (line.drop 9).toString else
   if line.startsWith "ssabuild " then ssabuildCmd (line.drop 9).toString else
+  if line.startsWith "ssawalk " then ssawalkCmd (line.drop 8).toString else
   if line.startsWith "desugar " then desugarCmd (line.drop 8).toString else
   if line.startsWith "cfglift " then cfgliftCmd (line.drop 8).toString else
   if line.startsWith "wfcheck " then wfcheckCmd (line.drop 8).toString else
